@@ -78,6 +78,26 @@ theorem C16_generate_episode [DecidableEq α] [DecidableEq ω] (S : SimIface σ 
     specC16 S.n horizon P.pmap (generateEpisode S k P horizon m) = true :=
   specC16_of_EpOK (generateEpisode_ok hW P horizon m)
 
+/-- `DebugTrainer.train`: every one of the episodes it generates stops at the requested horizon and
+satisfies `specC16` — whatever state the previous episode left the manager in. -/
+theorem C16_train [DecidableEq α] [DecidableEq ω] (S : SimIface σ α ω ι) (k : MKind) (hW : WF S k)
+    (P : Policies α ω) (horizon : Nat) :
+    ∀ (iterations : Nat) (m : MState σ),
+      (trainEpisodes S k P horizon iterations m).length = iterations ∧
+      ∀ r ∈ trainEpisodes S k P horizon iterations m, specC16 S.n horizon P.pmap r = true := by
+  intro iterations
+  induction iterations with
+  | zero => intro m; simp [trainEpisodes]
+  | succ n ih =>
+    intro m
+    obtain ⟨h1, h2⟩ := ih (stateAfter S k m ((generateEpisode S k P horizon m).trace.map (·.op)))
+    refine ⟨by simp [trainEpisodes, h1], ?_⟩
+    intro r hr
+    simp only [trainEpisodes, List.mem_cons] at hr
+    rcases hr with rfl | hr
+    · exact C16_generate_episode S k hW P horizon m
+    · exact h2 r hr
+
 /-- the same, in Prop form (this is what `specC16` means) -/
 theorem C16_generate_episode_prop [DecidableEq α] (S : SimIface σ α ω ι) (k : MKind)
     (hW : WF S k) (P : Policies α ω) (horizon : Nat) (m : MState σ) :
